@@ -33,6 +33,7 @@ func runC17(c *core.Ctx) {
 	c.Rule("C17.affinity", "A3: the worker index is hash(task id) modulo len(workchans): it depends on nothing but the id and the worker count")
 	c.Rule("C17.work", "A2/A3: a worker handles every item of its channel: Execute under a deferred unconditional recover, then UpdateLastScheduled in the worker itself (not in a detached goroutine) with the same occurrence time time.Unix(it.next, 0), whatever Execute returned")
 	c.Rule("C17.idle", "A1: in the scheduler loop every path that finds the queue empty (Min()==nil) clears s.when before it goes back to waiting")
+	c.Rule("C17.lockflow", "A5 (must-hold lock set over go/cfg): every use of TreeScheduler.{priorityQueue,nextTime,when} happens with s.mu held on all paths reaching it, in methods and in the function literals of the constructor (which start without the lock); unexported methods without lock operations are helpers whose call sites carry the obligation")
 	c.Rule("C17.locks", "A5: priorityQueue, nextTime and when are accessed under s.mu only (process, iterator, release, resetTimer require it at their call sites)")
 
 	pkg := c.P.Pkg("task/backend/scheduler")
@@ -59,6 +60,9 @@ func runC17(c *core.Ctx) {
 		requires: map[string]bool{"process": true, "iterator": true, "release": true, "resetTimer": true},
 		exempt:   map[string]string{"NewScheduler": "constructor: the scheduler is not published yet (its loop closure locks before every access)"}})
 	c17LoopLocks(c, pkg)
+	n := ruleMustHold(c, "C17.lockflow", pkg, holdSpec{Typ: "TreeScheduler", Mu: "mu", Fields: map[string]bool{"priorityQueue": true, "nextTime": true, "when": true},
+		Why: "the queue, the per-task index and the armed time are written by Schedule/Release from API goroutines and by the dispatch loop: outside the lock the index and the queue are seen out of step (a task queued twice or never) or the btree is read while it is rebalanced"})
+	c.Floor("C17.lockflow", "selections of guarded TreeScheduler fields", n, 10)
 }
 
 func c17Index(c *core.Ctx, pkg *packages.Package) {
